@@ -859,7 +859,14 @@ func c05Snapshots(c *Ctx) {
 						good = false
 					}
 				}
-				ok = good && Render(call.Common().Args[0]) == "p0.sm"
+				// the receiver's own *sync.Map field, whatever it is called
+				onOwn := false
+				if ld, isLd := isLoad(call.Common().Args[0]); isLd {
+					if fa, isFA := ld.X.(*ssa.FieldAddr); isFA && strings.HasPrefix(Render(ld), "p0.") && NamedOf(fa.X.Type()) != nil && NamedOf(fa.X.Type()).Obj().Name() == "Event" {
+						onOwn = true
+					}
+				}
+				ok = good && onOwn
 			}
 		}
 		c.Check(ok, "event-plumbing", "Event."+m.name, p.Pos(fn.Pos()), "forwards to sync.Map."+m.callee+" with its own arguments", "Event."+m.name+" is no longer a direct sync.Map."+m.callee+" on the event's store with the caller's arguments (extra state or caching between the store and its readers can go stale)")
@@ -876,6 +883,20 @@ func c05Snapshots(c *Ctx) {
 	}
 	subjects := map[string]bool{"event": true, "pushers/file": true, "pushers/kafka": true, "pushers/console": true, "pushers/pulsar": true, "pushers/rabbitmq": true}
 	n := 0
+	snapshotHelpers := map[*ssa.Function]bool{} // functions whose own Range callback is a complete snapshot and that hand the map out
+	defer func() {
+		// channels that take their snapshot through such a helper (event.ToMap(e)) instead of ranging themselves
+		for _, fn := range p.Funcs() {
+			if !subjects[RelPkg(PkgOf(fn))] || snapshotHelpers[fn] {
+				continue
+			}
+			for _, call := range Calls(fn) {
+				if hf := call.Common().StaticCallee(); hf != nil && snapshotHelpers[hf] {
+					c.Ok("snapshot-complete", shortFn(fn)+" snapshot via "+shortFn(hf), p.InstrPos(call), "uses the complete snapshot helper")
+				}
+			}
+		}
+	}()
 	for _, fn := range p.Funcs() {
 		for _, call := range Calls(fn) {
 			if call.Common().StaticCallee() != rangeM {
@@ -942,6 +963,11 @@ func c05Snapshots(c *Ctx) {
 						retTrue = false
 						why = append(why, "callback can return false (stops sync.Map.Range: later keys are dropped)")
 					}
+				}
+			}
+			if okShape && retTrue && fn.Signature.Results().Len() == 1 {
+				if _, isMap := fn.Signature.Results().At(0).Type().Underlying().(*types.Map); isMap {
+					snapshotHelpers[fn] = true
 				}
 			}
 			if subjects[rel] {
